@@ -787,6 +787,18 @@ class Interp(CallMixin):
             frame.vars[target.id] = val
         elif isinstance(target, (ast.Tuple, ast.List)):
             items = self.iterate(val, target, frame)
+            star = [i for i, t in enumerate(target.elts) if isinstance(t, ast.Starred)]
+            if len(star) == 1:  # a, *rest, z = items
+                i_ = star[0]
+                after = len(target.elts) - i_ - 1
+                if len(items) < len(target.elts) - 1:
+                    self.raise_("ValueError", "not enough values to unpack")
+                for t, v in zip(target.elts[:i_], items[:i_]):
+                    self.assign(t, v, frame)
+                self.assign(target.elts[i_].value, list(items[i_:len(items) - after]), frame)
+                for t, v in zip(target.elts[i_ + 1:], items[len(items) - after:]):
+                    self.assign(t, v, frame)
+                return
             if len(items) != len(target.elts):
                 self.raise_("ValueError", "unpack")
             for t, v in zip(target.elts, items):
